@@ -103,6 +103,64 @@ pub fn build(t: &mut Tape) -> (Vec<String>, Vec<String>) {
         }
         start.push_str(&format!("    print({})\n    print({}.a)\n", g, o));
     }
+    // two definitions that do not depend on each other and instantiate one generic type at different arguments, one of
+    // them naming the type bare (without type arguments) in an annotation: neither may fix the type for the other
+    if t.chance(1, 2) {
+        const GENERIC_USES: &[(&str, &str, &str, &str)] = &[
+            // (id, declaration, first user (int), second user (str))
+            (
+                "generic-blob-bare",
+                "Zpx :: blob(*T) {\n    v: *T,\n}",
+                "zpt0 :: fn -> int do\n    zb: Zpx = Zpx { v: 1 }\n    zb.v + 1\nend",
+                "zpt1 :: fn -> str do\n    zb :: Zpx { v: \"one\" }\n    zb.v\nend",
+            ),
+            (
+                "generic-blob-bare-param",
+                "Zpx :: blob(*T) {\n    v: *T,\n}",
+                "zpt0 :: fn -> int do\n    zh :: fn zq: Zpx -> int do\n        zq.v + 1\n    end\n    zh(Zpx { v: 1 })\nend",
+                "zpt1 :: fn -> str do\n    zb: Zpx(str) : Zpx { v: \"one\" }\n    zb.v\nend",
+            ),
+            (
+                "generic-enum-bare",
+                "Zpx :: enum(*T)\n    Zfull *T,\n    Zempty,\nend",
+                "zpt0 :: fn -> int do\n    zb: Zpx = Zpx.Zfull 1\n    case zb do\n        Zfull zx ->\n            zx + 1\n        end\n        else\n            0\n        end\n    end\nend",
+                "zpt1 :: fn -> str do\n    zb :: Zpx.Zfull \"one\"\n    case zb do\n        Zfull zx ->\n            zx\n        end\n        else\n            \"\"\n        end\n    end\nend",
+            ),
+            (
+                "std-maybe-bare",
+                "zpunused :: 0",
+                "zpt0 :: fn -> int do\n    zb: Maybe = Maybe.Just 1\n    case zb do\n        Just zx ->\n            zx + 1\n        end\n        else\n            0\n        end\n    end\nend",
+                "zpt1 :: fn -> str do\n    zb :: Maybe.Just \"one\"\n    case zb do\n        Just zx ->\n            zx\n        end\n        else\n            \"\"\n        end\n    end\nend",
+            ),
+            (
+                "generic-blob-bare-global",
+                "Zpx :: blob(*T) {\n    v: *T,\n}",
+                "zpw0: Zpx : Zpx { v: 1 }\nzpt0 :: fn -> int do\n    zpw0.v + 1\nend",
+                "zpw1 :: Zpx { v: \"one\" }\nzpt1 :: fn -> str do\n    zpw1.v\nend",
+            ),
+        ];
+        let (id, decl, a, b) = *t.pick(GENERIC_USES);
+        ids.push(id.to_string());
+        items.push(decl.to_string());
+        // (an entry may hold two top-level items, one per line group: split at lines that start in column 0 after an `end`)
+        for part in [a, b] {
+            let mut cur = String::new();
+            for line in part.lines() {
+                let starts_item = !line.starts_with(' ') && !line.starts_with("end") && !cur.is_empty() && !cur.ends_with("do") && (cur.lines().count() == 1 || cur.ends_with("end"));
+                if starts_item {
+                    items.push(std::mem::take(&mut cur));
+                }
+                if !cur.is_empty() {
+                    cur.push('\n');
+                }
+                cur.push_str(line);
+            }
+            if !cur.is_empty() {
+                items.push(cur);
+            }
+        }
+        start.push_str("    print(zpt0())\n    print(zpt1())\n");
+    }
     start.push_str("end");
     items.push(start);
     (items, ids)
